@@ -884,28 +884,8 @@ func hsRunRawCase(c *checkCtx, cs hsCase, st *hsStats, noise bool) {
 	}
 	// census while the raw peer is still there (silent or closed, as the fault says)
 	sp := hsCensusSpec{token: token, sockIno: sockIno, wantMaps: raw.ownMappings(), wantMemfds: raw.ownMemfds(), checkFiles: libIsClient}
-	if cs.Memfd && strings.HasPrefix(cs.Fault, "buf-") {
-		// Proposed finding X13 (narrow classifier): when the received buffer descriptor cannot be mapped, the memfd server
-		// closes the queue's descriptor (through the session's queueManager) but nobody closes the buffer's: exactly one
-		// descriptor more than the raw peer owns, and no mapping, is left. Anything else in the census is an ordinary violation.
-		left := hsCensusPoll(sp, hsCensusWait)
-		only := fmt.Sprintf("memfd descriptors with the case prefix: %d, the raw peer owns %d", sp.wantMemfds+1, sp.wantMemfds)
-		switch {
-		case len(left) == 0:
-			c.count("census_clean", 1)
-		case len(left) == 1 && left[0] == only:
-			witness["leftovers"] = left
-			c.count("x13_received_buffer_descriptor_left_open", 1)
-			c.knownFindingHit("X13", cs.name(), witness,
-				"memfd server: the buffer object it received cannot be mapped (%s); it fails with %q and releases the queue, but the received buffer descriptor stays open: %s",
-				cs.Fault, r.err.Error(), left[0])
-		default:
-			witness["leftovers"] = left
-			c.violation(cs.name(), witness, "census after the failed handshake: the %s end left behind: %s", cs.Judged, truncate(strings.Join(left, "; "), 400))
-		}
-	} else {
-		j.judgeCensus(sp, "after the failed handshake")
-	}
+	// (the memfd "buffer not mappable" cases used to leave the received buffer descriptor open: fixed in /repo as X20)
+	j.judgeCensus(sp, "after the failed handshake")
 	if cs.Round == 0 && ((cs.Script == "c3m" && cs.Step == 4 && cs.Fault == "stall") || (cs.Script == "s3m" && cs.Step == 5 && cs.Fault == "wrongtype")) {
 		c.sample(map[string]interface{}{"case": cs.key(), "judged_end_error": r.err.Error(), "elapsed_ms": float64(r.elapsed.Microseconds()) / 1000,
 			"initialize_timeout_ms": to.Milliseconds(), "hook_points_hit": hits.list(), "raw_peer_received": raw.received(), "census": "clean"})
